@@ -38,6 +38,8 @@ func applyParams(cfg *Config, params map[string]int) {
 			cfg.AllocCap = v
 		case "mappermmax":
 			cfg.MapPermMax = v
+		case "maporderbudget":
+			cfg.MapOrderBudget = v
 		case "mapvariants":
 			cfg.MapVariants = v
 		case "timeoutms":
